@@ -582,6 +582,16 @@ class Exec(Engine):
             ex.assume(t)
         ex.trace.append(f"loop{k}:exit")
         self.apply_use(lc.get("use_at_exit", []), ex)
+        # after the loop the target still holds the LAST element -- some element of the collection (any order) -- and is unbound if the loop never ran
+        tnames = self._target_names(stmt.target)
+        if tnames and not any(n in ex.vars for n in tnames):
+            last = fresh(et, "last")
+            y = z3.Const(fresh_name("e"), sort_of(et))
+            empty_c = z3.Not(z3.Exists([y], z3.Select(coll.x, y)))
+            ex.assume(z3.Or(empty_c, z3.Select(coll.x, to_term(last))))
+            self.assign(stmt.target, last, ex, stmt)
+            for n in tnames:
+                ex.ghost[("unbound", n)] = empty_c
         out.append(ex)
         return out
 
